@@ -1,0 +1,20 @@
+//go:build verif
+
+package influxql
+
+// Contracts for /verif (gvc). Comment-only file; see /verif/DESIGN.md §5 C12.
+
+//@ prop C12
+
+// An identifier is printed bare only if it re-lexes as the same identifier: not a keyword, first character
+// passes the stricter first-character test, every later character the general test.
+//@ func IdentNeedsQuotes
+//@   ghost tokIdent bool = false
+//@   call Lookup
+//@     requires arg0 == ident
+//@     set tokIdent = (ret0 == IDENT)
+//@   call isIdentFirstChar
+//@     requires i == 0 && arg0 == r
+//@   call isIdentChar
+//@     requires i > 0 && arg0 == r
+//@   ensures !result ==> tokIdent
